@@ -285,6 +285,40 @@ func checkResetRefetch(c *core.Ctx, typ string, f *ssa.Function) {
 	}
 	want := map[string]int{"AttesterHandler": 4, "ProposerHandler": 1, "SyncCommitteeHandler": 1}[typ]
 	c.Min(rule, n, want, typ+" resets outside the ticker case")
+	// the converse, for a handler whose fetch only ADDS to the store (it does not clear the scope
+	// itself): asking for a re-fetch of the next scope outside the ticker case must be preceded by
+	// wiping that scope, or the stale assignment stays merged with the new one and a validator whose
+	// slot moved is dispatched at the old slot too
+	ff, err := c.P.Func(dutiesPkg + ".(*" + typ + ").fetchAndProcessDuties")
+	if err != nil || len(callsIn(ff, "ssv/operator/duties/dutystore.*.Reset*")) > 0 {
+		return
+	}
+	nextFlags := resetFlags[typ]["next"]
+	k := 0
+	isNextFlag := func(st *ssa.Store) bool {
+		fa, ok := st.Addr.(*ssa.FieldAddr)
+		cst, isConst := st.Val.(*ssa.Const)
+		if !ok || !isConst || cst.Value == nil || cst.Value.String() != "true" || fieldVar(fa) == nil {
+			return false
+		}
+		for _, fl := range nextFlags {
+			if fieldVar(fa).Name() == fl {
+				return true
+			}
+		}
+		return false
+	}
+	for _, ss := range storesWhere(f, isNextFlag) {
+		facts := ss.Facts(c)
+		if facts == nil || !inSelectCase(facts) || isTickerCase(facts) {
+			continue // before the loop, or the scheduled first fetch of the next scope: nothing stale to wipe
+		}
+		k++
+		_, wiped := facts.Has("called(ssv/operator/duties/dutystore.*.Reset*(*, (* + 1*)))")
+		c.Decide(wiped, rule, fmt.Sprintf("%s.HandleDuties|re-fetch of the next scope #%d wipes it first", typ, k), c.P.Pos(ss.Store.Pos()), "next scope reset before the flag",
+			"the next scope is flagged for re-fetch in a reorg / indices-change case without being wiped first: "+typ+"'s fetch only adds, so stale duties stay and are dispatched besides the new ones")
+	}
+	c.Min(rule, k, 3, typ+" next-scope re-fetch flags outside the ticker case")
 }
 
 var reScopeNext = regexp.MustCompile(` \+ 1(:\w+)?\)$`)
@@ -398,6 +432,23 @@ func mustPassThrough(from ssa.Instruction, target func(ssa.Instruction) bool, st
 		return true
 	}
 	return walk(b, idx+1)
+}
+
+// inSelectCase: the facts place the instruction inside some case of a select.
+func inSelectCase(facts ens.FactSet) bool {
+	for _, k := range facts.Keys() {
+		ft := facts[k]
+		if ft.Kind != "eq" || len(ft.A) != 2 {
+			continue
+		}
+		for i := 0; i < 2; i++ {
+			sel, idx := ft.A[i], ft.A[1-i]
+			if sel.K == "extract" && sel.L == "0" && len(sel.A) == 1 && sel.A[0].K == "select" && idx.K == "const" {
+				return true
+			}
+		}
+	}
+	return false
 }
 
 func isTickerCase(facts ens.FactSet) bool {
